@@ -142,6 +142,13 @@ def sin_scale(x, y, z, *, t, omega=1.0, phase=0.0, offset=0.0):
     return offset + math.sin(omega * t + phase)
 
 
+def wave_field(x, y, z, *, t, a=1.0, kx=1.0, ky=0.5, w=1.0):
+    """A travelling-wave vector potential: depends on position AND time."""
+    x = np.atleast_1d(x)
+    y = np.atleast_1d(y)
+    return np.stack([a * np.sin(kx * x + w * t), a * np.cos(ky * y - w * t), np.zeros_like(x, dtype=float)], axis=1)
+
+
 def gauge_grad(x, y, z, *, c=(0.0, 0.0), q=(0.0, 0.0, 0.0), inv_scale=1.0, xi=1.0):
     """grad chi for chi(r) = c.r + 1/2 r^T Q r in dimensionless coordinates r = (x, y)/xi,
     returned in physical vector-potential units (divided by A_scale)."""
@@ -320,6 +327,8 @@ def build_tree(node, ctx, shared=None):
                 inv_scale=1.0 / ctx["A_scale"],
                 xi=ctx["xi"],
             )
+        elif k == "wave":
+            obj = tdgl.Parameter(wave_field, time_dependent=True, a=node["a"], kx=node["kx"], ky=node["ky"], w=node["w"])
         elif k == "scalar2d":
             obj = tdgl.Parameter(scalar2d, a=node["a"], b=node["b"])
         elif k == "column2d":
@@ -376,6 +385,8 @@ def eval_tree(node, ctx, x, y, z, t):
             return int(node["v"]) if node.get("int") else float(node["v"])
         if k == "gauge":
             return gauge_grad(x, y, z, c=tuple(node.get("c", (0, 0))), q=tuple(node.get("q", (0, 0, 0))), inv_scale=1.0 / ctx["A_scale"], xi=ctx["xi"])
+        if k == "wave":
+            return wave_field(x, y, z, t=t, a=node["a"], kx=node["kx"], ky=node["ky"], w=node["w"])
         if k == "scalar2d":
             v = scalar2d(x, y, z, a=node["a"], b=node["b"])
             return v
@@ -397,7 +408,7 @@ def _col(v):
 
 def tree_time_dependent(node):
     if "leaf" in node:
-        return node["leaf"] in ("ramp", "pw", "sin")
+        return node["leaf"] in ("ramp", "pw", "sin", "wave")
     return tree_time_dependent(node["l"]) or tree_time_dependent(node["r"])
 
 
